@@ -36,9 +36,20 @@ Section FullRows.
      (Generated.row_flag_is_current, re-read from Comparator / AND / ElseIf ._evaluate__ on every run); otherwise every row would
      be stored with the flag of the row before it *)
   Definition shifted (rows : list entry) : list entry := combine (map fst rows) (0 :: map snd rows).
+  (* BinaryOperator._most_general_: of the retrieved rows keep those that no other retrieved row with the same truth flag
+     contains (a shorter one, or an equally long one retrieved earlier) *)
+  Definition dominates (j : nat) (e' : entry) (i : nat) (e : entry) : bool :=
+    negb (Nat.eqb i j) && Nat.eqb (snd e') (snd e) &&
+    (Nat.ltb (length (fst e')) (length (fst e)) || (Nat.eqb (length (fst e')) (length (fst e)) && Nat.ltb j i)) &&
+    covers (fst e') (fst e).
+  Definition most_general (rows : list entry) : list entry :=
+    let ix := combine (seq 0 (length rows)) rows in
+    map snd (filter (fun ie => negb (existsb (fun je => dominates (fst je) (snd je) (fst ie) (snd ie)) ix)) ix).
+
   Definition cached_step (s : both) (L : assignment) : both * list entry :=
     let s1 := fst (step s (OChk L)) in
-    if fst (ic_check (impl s) L) then (s1, ic_retrieve (impl s1) L)
+    if fst (ic_check (impl s) L)
+    then (s1, if replay_keeps_most_general then most_general (ic_retrieve (impl s1) L) else ic_retrieve (impl s1) L)
     else (store_all s1 (if row_flag_is_current then answers L else shifted (answers L)), answers L).
   Fixpoint cached_run (s : both) (Ls : list assignment) : list (list entry) :=
     match Ls with [] => [] | L :: Ls' => let r := cached_step s L in snd r :: cached_run (fst r) Ls' end.
@@ -214,6 +225,26 @@ Section FullRows.
     apply IH; [apply good_ins; [exact G | apply H; now left] | intros e He; apply H; now right].
   Qed.
 
+  (* ---------- keeping the most general rows ---------- *)
+  Lemma most_general_sub rows e : In e (most_general rows) -> In e rows.
+  Proof.
+    unfold most_general. intros H. apply in_map_iff in H as ([i e'] & E & H). cbn [snd] in E. subst e'.
+    apply filter_In in H as [H _]. now apply in_combine_r in H.
+  Qed.
+
+  (* the row retrieved first survives when no retrieved row is shorter *)
+  Lemma most_general_keeps_first e rows :
+    (forall e', In e' (e :: rows) -> length (fst e') = length (fst e)) -> In e (most_general (e :: rows)).
+  Proof.
+    intros Hlen. unfold most_general. cbn [length seq combine]. apply in_map_iff. exists (0, e). split; [reflexivity|].
+    apply filter_In. split; [now left|]. cbn [fst snd]. apply Bool.negb_true_iff. apply Bool.not_true_iff_false. intros H.
+    apply existsb_exists in H as ([j e'] & Hin & D). cbn [fst snd] in D. unfold dominates in D.
+    apply andb_prop in D as [D _]. apply andb_prop in D as [D Dl]. apply andb_prop in D as [Dne _].
+    assert (Le : length (fst e') = length (fst e)).
+    { apply Hlen. destruct Hin as [Hin|Hin]; [injection Hin as _ <-; now left | right; now apply in_combine_r in Hin]. }
+    rewrite Le, Nat.ltb_irrefl, Nat.eqb_refl in Dl. cbn [orb andb] in Dl. apply Nat.ltb_lt in Dl. lia.
+  Qed.
+
   (* ---------- one lookup through the cached call site ---------- *)
   Lemma full_of_agree a L : full a = true -> (forall k, In k ks -> aget L k = aget a k) -> full L = true.
   Proof.
@@ -225,6 +256,7 @@ Section FullRows.
   Proof.
     intros G B. pose proof (good_chk s L G B) as G1. unfold cached_step.
     assert (FC : row_flag_is_current = true) by reflexivity. rewrite FC.
+    assert (RK : replay_keeps_most_general = true) by reflexivity. rewrite RK.
     destruct (fst (ic_check (impl s) L)) eqn:Cov; cbn [fst snd].
     2:{ split; [intros x; reflexivity|]. apply good_store; [exact G1|]. intros e He. unfold answers in He. now apply filter_In in He as [He _]. }
     split; [|exact G1].
@@ -240,7 +272,7 @@ Section FullRows.
     { intros b ob Hb C. apply (rel_inj b ob a o Hb Hrel). apply pattern_ext. intros k Hk.
       rewrite (compat_full b L C (rel_full b ob Hb) FL k Hk). now apply AG. }
     intros [p ox]. unfold obs. rewrite !in_map_iff. split.
-    - intros ([r' o'] & E & H). cbn [fst snd] in E. injection E as <- <-.
+    - intros ([r' o'] & E & H). cbn [fst snd] in E. injection E as <- <-. apply most_general_sub in H.
       pose proof (retrieve_at_full ks L _ _ _ _ BL H) as ->.
       destruct (retrieve_at_sound ks L _ _ _ _ H) as (p & Hp & Cp). destruct (P p o' Hp) as (b & Hb & <-).
       rewrite pcompat_pattern in Cp. pose proof (ONLY b o' (R b o' Hb) Cp) as E. injection E as -> ->.
@@ -250,8 +282,15 @@ Section FullRows.
       pose proof (ONLY b ob Hb C) as E. injection E as -> ->.
       assert (C' : pcompat_strict ks (pattern ks a) L = true) by now rewrite pcompat_strict_pattern.
       destruct (retrieve_at_complete ks L (root (impl s)) L (pattern ks a) o W Sh (Q a o Hao) C') as (r' & Hr').
-      pose proof (retrieve_at_full ks L _ _ _ _ BL Hr') as ->. exists (L, o). cbn [fst snd]. split; [|exact Hr'].
-      f_equal. apply pattern_ext. exact AG.
+      pose proof (retrieve_at_full ks L _ _ _ _ BL Hr') as ->.
+      (* every retrieved row is the lookup itself with the stored flag: the first one survives the selection *)
+      assert (ALL : forall e, In e (retrieve_at ks L (root (impl s)) L) -> e = (L, o)).
+      { intros [r2 o2] H2. pose proof (retrieve_at_full ks L _ _ _ _ BL H2) as ->.
+        destruct (retrieve_at_sound ks L _ _ _ _ H2) as (p2 & Hp2 & Cp2). destruct (P p2 o2 Hp2) as (b2 & Hb2 & <-).
+        rewrite pcompat_pattern in Cp2. pose proof (ONLY b2 o2 (R b2 o2 Hb2) Cp2) as EQ2. now injection EQ2 as _ ->. }
+      destruct (retrieve_at ks L (root (impl s)) L) as [|e0 rest] eqn:ER; [destruct Hr'|].
+      pose proof (ALL e0 (or_introl eq_refl)) as ->. exists (L, o). cbn [fst snd]. split; [f_equal; apply pattern_ext; exact AG|].
+      apply most_general_keeps_first. intros e' He'. now rewrite (ALL e' He').
   Qed.
 
   (* ---------- any history of lookups ---------- *)
